@@ -44,6 +44,17 @@ for it in range(N):
     got = fired(getattr(A, cls)(run_on_first_date=f1, run_on_end_of_period=eop, run_on_last_date=fl), idx); evals += 1
     distinct.add((cls, f1, eop, fl, n <= 2))
     if got != want: bad("calendar-scheduler-fires-exactly-on-its-boundaries", scheduler=cls, first=f1, end_of_period=eop, last=fl, index=[str(d) for d in days][:40], fired=[str(d) for d in got][:40], expected=[str(d) for d in want][:40])
+    # one scheduler instance gating two branches: it is asked twice on every date and answers the same both times
+    del LOG[:]
+    shared = getattr(A, cls)(run_on_first_date=f1, run_on_end_of_period=eop, run_on_last_date=fl)
+    class SpyB(bt.Algo):
+        def __call__(self, target): LOG.append(("b", target.now)); return True
+    class SpyA(bt.Algo):
+        def __call__(self, target): LOG.append(("a", target.now)); return True
+    data_ = pd.DataFrame({"a": 100.0 + np.arange(len(idx))}, index=idx)
+    bt.Backtest(bt.Strategy("s", [A.Or([bt.core.AlgoStack(shared, SpyA()), bt.core.AlgoStack(shared, SpyB())])]), data_, progress_bar=False).run(); evals += 1
+    fa = [pd.Timestamp(x[1]) for x in LOG if x[0] == "a"]; fb = [pd.Timestamp(x[1]) for x in LOG if x[0] == "b"]
+    if fa != want or fb != want: bad("scheduler-asked-twice-on-a-date-answers-the-same", scheduler=cls, first_branch=[str(d) for d in fa][:20], second_branch=[str(d) for d in fb][:20], expected=[str(d) for d in want][:20])
     # counting and date schedulers
     k = int(rs.randint(0, n + 2))
     got = fired(A.RunAfterDays(k), idx); evals += 1
@@ -58,7 +69,8 @@ for it in range(N):
     exp = [d for d in days if d > cut]
     if got != exp: bad("RunAfterDate", date=str(cut), fired=[str(d) for d in got][:30], expected=[str(d) for d in exp][:30])
     pick = [days[j] for j in sorted(set(rs.randint(n, size=int(rs.randint(1, 4)))))]; absent = days[-1] + pd.Timedelta(days=3)
-    got = fired(A.RunOnDate(*([str(d) for d in pick] + [str(absent)])), idx); evals += 1
+    given = [str(d) for d in pick] + [str(absent)]; given = [given[j] for j in rs.permutation(len(given))]      # in no particular order
+    got = fired(A.RunOnDate(*given), idx); evals += 1
     if got != pick: bad("RunOnDate", dates=[str(d) for d in pick], fired=[str(d) for d in got][:30])
     if it < 2: samples.append(dict(scheduler=cls, rows=n, fired=len(want)))
 print("JSON:" + json.dumps(dict(evaluations=evals, distinct=len(distinct), failures=fails[:5], samples=samples,
